@@ -210,13 +210,19 @@ def main():
         print('MACHINERY: extraction failed (not a verdict): %s' % e); sys.exit(2)
     gen_lines = open(gen).read().split('\n')
     lmap = rep['line_map']
-    # modules that carry obligations of this property
-    mods = sorted(set('views::' + o['module'] for o in lmap.values() if pid in o['tags']))
+    # modules this property depends on (claims.py) plus its property-level lemma modules
+    import claims
+    if pid not in claims.CLAIMS:
+        print('MACHINERY: %s is not claimed (see MANIFEST.not_applicable)' % pid); sys.exit(2)
+    cfg = claims.CLAIMS[pid]
+    vlist = rep['modules'] if cfg['views'] == claims.ALL else [m for m in cfg['views'] if m in rep['modules']]
+    missing = [] if cfg['views'] == claims.ALL else [m for m in cfg['views'] if m not in rep['modules']]
+    if missing:
+        print('MACHINERY: views %s are not under contract' % missing); sys.exit(2)
+    mods = ['views::' + m for m in vlist]
     pmods = ['props::' + os.path.basename(p)[:-3] for p in sorted(os.listdir(os.path.join(VF, 'props'))) if p.endswith('.rs') and p.lower().startswith(pid.lower())]
-    if pid in ('C15', 'C08', 'C18', 'C01', 'C17'):
-        mods = ['views::' + m for m in rep['modules']]
-    if not mods and not pmods:
-        print('MACHINERY: no obligations generated for %s' % pid); sys.exit(2)
+    if pid == 'C18' and rep.get('unbounded_buffers'):
+        print('MACHINERY: buffer fields without a declared C18 bound: %s (needs contract work, not a verdict)' % rep['unbounded_buffers']); sys.exit(2)
     # ---- canaries: the trusted base must not prove false
     can = run_verus(gen, ['canary'], rlimit=10, timeout=300)
     can_errs = parse_stderr(can['stderr'])
